@@ -255,7 +255,7 @@ def rule_sentinel(ctx: Ctx) -> None:
     # early 'if <test over the level>: return' statements before the raise are part of the guard: the request is refused iff
     # none of them fires and the raise guard holds
     pre = [n.test for n in C.walk_shallow(chk.node) if isinstance(n, ast.If) and n is not raises[0].parent  # type: ignore
-           and n.lineno < raises[0].lineno and _only_var(n.test, var) and any(isinstance(b, ast.Return) for b in n.body)]
+           and A.seq(n) < A.seq(raises[0]) and _only_var(n.test, var) and any(isinstance(b, ast.Return) for b in n.body)]
     guard = raise_guard
     for t in reversed(pre):
         guard = ast.BoolOp(op=ast.And(), values=[ast.UnaryOp(op=ast.Not(), operand=t), guard])
